@@ -38,7 +38,7 @@ func debugCmd(args []string) int {
 		if !strings.Contains(c.Fn.Name, pat) {
 			continue
 		}
-		if c.Fn.Body() == nil {
+		if c.Binding != "" || c.Fn.Body() == nil {
 			continue
 		}
 		res := symex.VerifyFunc(w, c)
